@@ -19,6 +19,10 @@ oracle  : after every operation -
           * running participants have pairwise distinct ethertypes;
           * running participants have pairwise distinct FMMU windows, and
             every logical address a participant was given lies in its window.
+bitmap  : a quarter of the cases are histories on FMMULock itself (reserve /
+          release in any order, windows that share a bitmap byte): a window
+          is never handed out while a live lock holds it, and a release
+          clears exactly its own bit.
 """
 import os
 import re
@@ -93,8 +97,89 @@ def case_strategy(draw):
             "crash": crash}
 
 
+def fmmu_strategy():
+    """histories on the address bitmap itself: processes reserve and release
+    windows in any order"""
+    op = st.one_of(
+        st.tuples(st.just("new"), st.integers(1, 23)),
+        st.tuples(st.just("new"), st.integers(8, 15)),
+        st.tuples(st.just("remove"), st.integers(0, 5)))
+    return st.fixed_dictionaries({
+        "kind": st.just("fmmu"),
+        "ops": st.lists(op, min_size=2, max_size=14),
+    })
+
+
 def strategy(tier):
-    return case_strategy()
+    return st.one_of(case_strategy(), case_strategy(), case_strategy(),
+                     fmmu_strategy())
+
+
+def run_fmmu(case):
+    import tempfile
+    import shutil
+    root = tempfile.mkdtemp(prefix="vf-fmmu-")
+    path = root + "/run/ebpf/vf0.fmmu"
+    live = []          # (lock object, window)
+    kinds = []
+    state = {"next": None, "fresh": 30}
+
+    def pick(a, b=None):
+        if state["next"] is not None:
+            v, state["next"] = state["next"], None
+            return v
+        state["fresh"] += 1         # the wanted window was taken: go on
+        return state["fresh"]
+
+    def bitmap():
+        with open(path, "rb") as f:
+            data = f.read()
+        return {i for i in range(len(data) * 8) if data[i // 8] >> i % 8 & 1}
+
+    def fail(what):
+        return dict(ok=False, nontrivial=True, classes=["fmmu-bitmap"],
+                    bucket=("fmmu", what[:40]),
+                    what=f"address bitmap: {what}; history {kinds}, live "
+                         f"windows {[w for _, w in live]}")
+    try:
+        with vsched.patched(lockmod, randrange=pick):
+            for op, arg in case["ops"]:
+                if op == "new":
+                    state["next"] = arg
+                    try:
+                        lk = lockmod.FMMULock(path)
+                    except Exception as e:
+                        return fail(f"FMMULock() raised "
+                                    f"{type(e).__name__}: {e}")
+                    w = lk.base_addr >> 22
+                    kinds.append(f"new->{w}")
+                    if w in [x for _, x in live]:
+                        return fail(f"window {w} was handed out although a "
+                                    f"live lock holds it")
+                    live.append((lk, w))
+                    if w not in bitmap():
+                        return fail(f"window {w} is not marked in the bitmap")
+                elif live:
+                    lk, w = live.pop(arg % len(live))
+                    before = bitmap()
+                    lk.remove()
+                    kinds.append(f"remove {w}")
+                    after = bitmap()
+                    if after != before - {w}:
+                        return fail(f"releasing window {w} changed the "
+                                    f"bitmap from {sorted(before)} to "
+                                    f"{sorted(after)}")
+    finally:
+        for lk, w in live:
+            try:
+                os.close(lk.fd)
+            except OSError:
+                pass
+        shutil.rmtree(root, ignore_errors=True)
+    removes = sum(1 for k in kinds if k.startswith("remove"))
+    return dict(ok=True, nontrivial=removes >= 1 and len(kinds) >= 4,
+                key=repr(("fmmu", kinds)), classes=["fmmu-bitmap"],
+                summary={"history": kinds})
 
 
 def enumerate_cases(tier):
@@ -265,6 +350,8 @@ def invariant(world):
 
 
 def run_case(case):
+    if case.get("kind") == "fmmu":
+        return run_fmmu(case)
     n = len(case["participants"])
     with vsched.scratch_root() as root:
         s = vsched.Sched(root)
